@@ -93,6 +93,18 @@ CHECKS = {
         BASE_NOTE + 'Garbage-collection driven registry edits (Subscription.__del__) and placeholder cycles are outside the model.',
         'DESIGN.md section 5 C11',
     ),
+    'C01': (
+        'Rocq proof of the reference denotation properties + differential execution of the real compiler output by an independent interpreter',
+        'PARTIAL. Model/C01.v is the reference denotation of a segment over free terms (every actor an uninterpreted symbol): '
+        'argument order, per-port getters, state of the sibling trained in the same run, previous states loaded and new states '
+        'committed per persistent group at its list position. Proved: each task evaluated exactly once and functionally, state '
+        'binding of derived actors, trained state construction, commit positions. The compiler algorithm itself is not '
+        'modelled: flow.compile is run on random segments (multi-output, unused ports, fork groups, arbitrary train/label '
+        'sources, every connection order, any persistent subset/order) and its table executed by an independent interpreter '
+        'must equal the denotation (sink term, commit list, loads, one call per task).',
+        BASE_NOTE + 'No theorem covers the compiler internals: the tie is the executed behaviour on the generated topologies.',
+        'DESIGN.md section 5 C01',
+    ),
 }
 NOT_YET = 'model and theorems not built yet in this round (planned, see DESIGN.md section 5/9)'
 
